@@ -23,6 +23,12 @@ INJ_TYPES = ("SimpleAck", "ComplexAck", "Error", "Reject", "Abort", "SegmentAck"
 UNKNOWN_MAC = 9
 
 
+def iam_octets(instance):
+    """I-Am (local broadcast form) of a device instance: max APDU 480, segmentation both, vendor 999."""
+    oid = (8 << 22) | instance
+    return bytes([0x01, 0x00, 0x10, 0x00, 0xC4]) + oid.to_bytes(4, "big") + bytes([0x22, 0x01, 0xE0, 0x91, 0x00, 0x22, 0x03, 0xE7])
+
+
 def craft(kind, invoke, service=18):
     """NPDU octets (local addressing) of a crafted reply; written by hand from clause 20.1."""
     if kind == "SimpleAck":
@@ -50,7 +56,7 @@ def craft(kind, invoke, service=18):
 
 class MCfg(object):
     def __init__(self, clients, servers, script, inj=0, dup=0, timers=0, inj_types=INJ_TYPES, deliver_width=3,
-                 label=None, resp_len=3, req_len=2):
+                 label=None, resp_len=3, req_len=2, iam=False):
         self.clients = [dict(c) for c in clients]       # {"mac":1, "next_id":1}
         self.servers = list(servers)                     # macs
         # (client index, server mac, explicit invoke or None[, "cb"]); "cb": the application submits this request
@@ -61,6 +67,9 @@ class MCfg(object):
         self.timers = timers
         self.inj_types = tuple(inj_types)
         self.deliver_width = deliver_width
+        # every server announces itself at the start (the clients file the I-Ams) and a foreign reply may be preceded by
+        # an I-Am from its sender that claims the device instance of the station the live request was sent to
+        self.iam = iam
         self.label = label
         self.resp_len = resp_len
         self.req_len = req_len
@@ -118,6 +127,14 @@ class MultiSystem(object):
         self._seen_ind = {mac: 0 for mac in cfg.servers}
         self.ind_count = {}                              # (server mac, client mac, invoke, k) -> indications
         vclock.settle()
+        if cfg.iam:
+            from bacpypes.pdu import LocalBroadcast
+            for mac in cfg.servers:
+                try:
+                    Network.process_pdu(self.net, PDU(iam_octets(20 + mac), source=Address(mac), destination=LocalBroadcast()))
+                except Exception as err:
+                    self.wire.errors.append("%s: %s" % (type(err).__name__, str(err)[:120]))
+                vclock.settle()
 
     def _hook_callback_submission(self, ci, app):
         orig = app.confirmation
@@ -176,6 +193,9 @@ class MultiSystem(object):
                 for inv in cand:
                     for kind in self.cfg.inj_types:
                         out.append("inject:%d:%d:%s:%d" % (ci, src, kind, inv))
+                    if self.cfg.iam and any(i == inv and p != src for (p, i) in self.live[ci]):
+                        for kind in ("SimpleAck", "ComplexAck", "Abort"):
+                            out.append("inject:%d:%d:%s+iam:%d" % (ci, src, kind, inv))
         # toward a server that is holding a request: server-role frames from the very client it is serving (they speak
         # about transactions in which that client serves) and client-role frames with the same invoke ID from other
         # stations (equal IDs from different peers are independent).  None of them concerns the held transaction.
@@ -284,8 +304,20 @@ class MultiSystem(object):
         """Deliver a crafted frame to client ci right now and judge its effect against the reference."""
         app = self.clients[ci]
         key = (src, inv)
+        claims = kind.endswith("+iam")
+        if claims:
+            # the sender first announces itself with the device instance of the station a live request with that ID went to
+            # (a second device configured with the same instance): the device record moves, the live request does not
+            kind = kind[:-4]
+            peer = next(p for (p, i) in sorted(self.live[ci]) if i == inv and p != src)
+            from bacpypes.pdu import LocalBroadcast
+            try:
+                Network.process_pdu(self.net, PDU(iam_octets(20 + peer), source=Address(src), destination=LocalBroadcast()))
+            except Exception as err:
+                self.wire.errors.append("%s: %s" % (type(err).__name__, str(err)[:120]))
+            vclock.settle()
         should_match = key in self.live[ci] and not kind.endswith(".client")
-        before = self._client_canon(ci)
+        before = self._client_canon(ci, identity_only=claims)
         nconf = len(app.confirmations)
         pdu = PDU(craft(kind, inv), source=Address(src), destination=app.address)
         self.injected.append((src, self.cfg.clients[ci]["mac"], kind, inv))
@@ -297,7 +329,7 @@ class MultiSystem(object):
         except Exception as err:
             self.wire.errors.append("%s: %s" % (type(err).__name__, str(err)[:120]))
         vclock.settle()
-        after = self._client_canon(ci)
+        after = self._client_canon(ci, identity_only=claims)
         new = app.confirmations[nconf:]
         if not should_match:
             if new:
@@ -359,9 +391,14 @@ class MultiSystem(object):
                 return done, lab
         return done, None
 
-    def _client_canon(self, ci):
+    def _client_canon(self, ci, identity_only=False):
         app = self.clients[ci]
         now = vclock.clock.now
+        if identity_only:
+            # (the device record a transaction holds may rightfully change under it: only who it talks to, under which ID
+            # and in which state is compared)
+            return h64((tuple((tr.invokeID, tr.state, str(tr.pdu_address)) for tr in app.smap.clientTransactions),
+                        len(app.confirmations), tuple(str(f.key()) for f in self.wire.inflight)))
         return h64((canon(app.smap.clientTransactions, now), canon(app.smap.serverTransactions, now), app.smap.nextInvokeID,
                     len(app.confirmations), tuple(str(f.key()) for f in self.wire.inflight)))
 
